@@ -55,9 +55,10 @@ PROPS['C15'] = dict(
     assumptions=[EXACT, SAN],
 )
 PROPS['C03'] = dict(
-    units=[dict(target=T('h_arith', parts=3), quick=dict(scale=1.0), thorough=dict(scale=5.0, shards=16))],
+    units=[dict(target=T('h_arith', parts=4), quick=dict(scale=1.0), thorough=dict(scale=5.0, shards=16))],
     rule=('(a) operand pairs, orders (0..3)^2, constructed placement classes, rational coefficients/scalars: a+b, b+a, a-b, b-a, a*b, b*a, a*c, c*a, a/c, -a, a*0, += -= *= /=, self += / -=, cross-order assignment; '
-          '(b) linearCombination over 1..6 splines (both overloads, vs operator chain); (c) in-place histories of 1..10 steps on an order-3 accumulator with the model updated alongside. '
+          '(b) linearCombination over 1..6 splines (both overloads, vs operator chain); (c) in-place histories of 1..10 steps on an order-3 accumulator with the model updated alongside; '
+          '(d) high orders (10,10), (10,2), (7,4) - the shipped examples use order 10: + - * += -=, Dx<3>, X<2>, commutator, linear / bilinear forms and evaluation, all exact. '
           'Oracle: reference function equality on EVERY grid interval (so results are zero wherever unsupported) + class invariants of every result + operands unchanged. '
           'Non-trivial: non-identical placement or mixed orders; >= 2 splines; >= 3 steps. Distinct = distinct case text.'),
     technique='rapidcheck generation, library instantiated with an exact rational scalar, compared interval-by-interval with a reference piecewise-polynomial model',
@@ -437,7 +438,7 @@ def _c19_units():
     a = lambda *x: ['--property', 'C19'] + list(x)
     us = [dict(target=T('h_archetype', deps=['harness/common/qsolver.h']), quick=dict(args=a(), scale=1.0), thorough=dict(args=a(), scale=6.0, shards=4)),
           dict(target=T('h_gen', parts=4), quick=dict(args=a('--prefix', 'exact'), scale=0.25), thorough=dict(args=a('--prefix', 'exact'), scale=1.0, shards=4)),
-          dict(target=T('h_arith', parts=3), quick=dict(args=a(), scale=0.2), thorough=dict(args=a(), scale=1.0, shards=4)),
+          dict(target=T('h_arith', parts=4), quick=dict(args=a(), scale=0.2), thorough=dict(args=a(), scale=1.0, shards=4)),
           dict(target=T('h_prim', parts=5), quick=dict(args=a(), scale=0.25), thorough=dict(args=a(), scale=1.0, shards=4)),
           dict(target=T('h_interp', parts=3), quick=dict(args=a('--prefix', 'exact-solver'), scale=0.3), thorough=dict(args=a('--prefix', 'exact-solver'), scale=1.0, shards=4))]
     for k in (0, 1, 2):
